@@ -116,13 +116,24 @@ def allMaybe : List Ty → List Ty → Bool
   | a :: as, b :: bs => (a.is b != .isnt) && allMaybe as bs
   | _, _ => true
 
+/-- the chosen descriptor's "may fit" arguments are wrapped in a `TypeAssertion` whose static type is
+    `*TypeIntersection(target, argument type)`: an empty intersection is a nil pointer, the dereference panics
+    (only degenerate argument types, e.g. a union with an empty union inside, get here) -/
+def assertionPanics (d : FnDesc) (argTys : List Ty) : Bool :=
+  ((viewArgs d.strict argTys).zip (d.args.zip argTys)).any fun x =>
+    x.1.is x.2.1 == .maybe &&
+      (match (if d.strict then Ty.typeSum x.2.1 .null else some x.2.1) with
+       | some target => (match Ty.typeInter target x.2.2 with | some none => true | _ => false)
+       | none => false)
+
 /-- second loop: the FIRST descriptor every argument may fit (`len(argTypes) == len(descriptor.ArgumentTypes)`,
     which a `TypeFn` descriptor satisfies for a call without arguments) -/
 def maybePassFrom (argTys : List Ty) : Nat → List FnDesc → Pick
   | _, [] => .notFound
   | i, d :: ds =>
     let ats := viewArgs d.strict argTys
-    if ats.length == d.args.length && allMaybe ats d.args then .found i
+    if ats.length == d.args.length && allMaybe ats d.args then
+      (if assertionPanics d argTys then .panic else .found i)
     else maybePassFrom argTys (i + 1) ds
 
 /-- `FunctionExpression.Typecheck`: the index of the descriptor attached to the call (`notFound` = "unknown function" panic) -/
